@@ -225,6 +225,10 @@ func (kt *Keytab) Unmarshal(b []byte) error {
 	}
 	// n tracks position in the byte array
 	n := 2
+	if len(b) == n {
+		// A keytab holding no entries is just the two byte header
+		return nil
+	}
 	l, err := readInt32(b, &n, &endian)
 	if err != nil {
 		return err
